@@ -10,7 +10,7 @@ import sys
 import esrv
 
 PROPS_V = "Props/C13.v"
-TRANSLATORS = ["partition"]
+TRANSLATORS = ["partition", "dist"]
 GEN = os.path.join(esrv.VERIF, "harness", "corr", "gen_run.py")
 TRUSTED = [
     "Coq 8.16.1 kernel + vm_compute",
@@ -18,7 +18,10 @@ TRUSTED = [
     "translator partition.py (split_idx regenerated from source each run)",
     "hand-written BSP model coq/Model/Bsp.v; tie = (a) ast scan: the generation modules use only gather/bcast/scatter/Barrier on comm, "
     "(b) traced collective sequences of real multi-process runs are identical on every rank, (c) the MPI stand-in implements deposit/pick-up semantics",
-    "distribution skeletons coq/Model/Dist.v are hand-written models of the scatter/compute/gather index arithmetic; tie = byte comparison of the real outputs across rank counts",
+    "distribution skeletons coq/Model/Dist.v are hand-written models of the scatter/compute/gather index arithmetic; tie = (a) translator dist.py: the bounds/guard "
+    "arithmetic of shape_to_functions, make_changes and check_results is regenerated (Gen/GenDist.v) and proved equal to the model's (C13_*_is_code), together with "
+    "structural checks (pos counts the innermost iterations from 0, extras only inside the guarded block), (b) a fingerprint of every statement that mentions the "
+    "communicator, split_idx/array_split or the derived slice variables, (c) byte comparison of the real outputs across rank counts",
     "per-item sympy work is a function of its arguments (same result in different processes; PYTHONHASHSEED fixed)",
 ]
 ASSUMPTIONS = [
